@@ -78,18 +78,25 @@ func translateUnit(repo string, u unit) (text string, err error) {
 	}()
 	t := &tr{unit: u, fset: token.NewFileSet(), structs: map[string]*ast.StructType{}, decls: map[string]*ast.FuncDecl{},
 		consts: map[string]ast.Expr{}, vars: map[string]ast.Expr{}, fns: map[string]*fn{}, recs: map[string][]field{},
-		svarType: map[string]string{}, effArgs: map[string][]string{}, constDone: map[string]bool{}, tparams: map[string]bool{}}
+		svarType: map[string]string{}, effArgs: map[string][]string{}, constDone: map[string]bool{}, tparams: map[string]bool{}, ifaces: map[string]*ast.InterfaceType{}, named: map[string]ast.Expr{}}
 	dir := filepath.Join(repo, u.dir)
 	names, e := filepath.Glob(filepath.Join(dir, "*.go"))
 	if e != nil || len(names) == 0 {
 		return "", fmt.Errorf("%s: no Go files", dir)
 	}
 	sort.Strings(names)
+	if u.hints != "" { // declarations of what the listed functions use from other packages (pkg.Name is written pkg_Name)
+		names = append(names, "hints")
+	}
 	for _, n := range names {
 		if strings.HasSuffix(n, "_test.go") {
 			continue
 		}
-		f, e := parser.ParseFile(t.fset, n, nil, 0)
+		var src any
+		if n == "hints" {
+			n, src = "gotrans-hints-"+u.name+".go", "package hints\n"+u.hints
+		}
+		f, e := parser.ParseFile(t.fset, n, src, 0)
 		if e != nil {
 			return "", fmt.Errorf("%s: does not parse: %v", n, e)
 		}
@@ -101,8 +108,13 @@ func translateUnit(repo string, u unit) (text string, err error) {
 				for _, s := range d.Specs {
 					switch s := s.(type) {
 					case *ast.TypeSpec:
-						if st, ok := s.Type.(*ast.StructType); ok {
-							t.structs[s.Name.Name] = st
+						switch ty := s.Type.(type) {
+						case *ast.StructType:
+							t.structs[s.Name.Name] = ty
+						case *ast.InterfaceType:
+							t.ifaces[s.Name.Name] = ty
+						default:
+							t.named[s.Name.Name] = ty
 						}
 					case *ast.ValueSpec:
 						for i, id := range s.Names {
